@@ -2,45 +2,54 @@
    Model: theories/Query.v (internal/query/conditions.go after fixes/C03-*.patch, C14-*.patch).
    Proofs: QuerySort, QueryClean, QueryFlags, QueryHosts, QueryOps, QuerySet, QueryAtoms, QueryMain, QueryTotal. *)
 From Coq Require Import List NArith ZArith Bool Permutation.
-From Pk Require Import Query QuerySort QueryClean QueryFlags QueryHosts QueryOps QuerySet QueryAtoms QueryMain QueryTotal QuerySeq QueryThen.
+From Pk Require Import Query QuerySort QueryClean QueryFlags QueryHosts QueryOps QuerySet QueryAtoms QueryMain QueryTotal QuerySeq QueryThen QueryGroup.
 Import ListNotations.
 
 (* (1) Meaning is preserved. For every valuation (one stream per sub-query name with ids, ports, byte counts >= 0,
    ftime <= ltime, tag states; an ARBITRARY payload oracle, matching started at any position) and every well-formed
-   expression of the class `tail_ok`, the conditions returned by query.Parse evaluate to the meaning of the text as
-   written. `tail_ok`: AND, OR, NOT, parentheses, sort/limit/group directives in any nesting over every filter kind
-   (value lists, ranges, open ranges, masks, variables, sub-queries), and THEN whose LEFT operand is an OR group of
-   sequences of plain / negated payload filters (steps may themselves be OR groups, `data:` included) and whose RIGHT
-   operand is any expression of the class again (AND / OR / NOT groups, negated sequences, further THENs).
-   _partial: of the judged fragment (wf_seq) this leaves out THEN whose left operand contains an AND group or a
-   non-payload filter (e.g. `(cdata:x tag:a) then cdata:y`, `(cdata:x cdata:y) then cdata:z`) or a negated OR group
-   (`-(cdata:x or cdata:y) then cdata:z`); those are covered by the correspondence runs only (notes/C03.md). *)
+   expression of the class `class_ok`, the conditions returned by query.Parse evaluate to the meaning of the text as
+   written. `class_ok`: AND, OR, NOT, parentheses, sort/limit/group directives in any nesting over every filter kind
+   (value lists, ranges, open ranges, masks, variables, sub-queries), and THEN whose RIGHT operand is any expression of
+   the class again (AND / OR / NOT groups, negated sequences, further THENs) and whose LEFT operand is
+     - an OR group of sequences of plain / negated payload filters (steps may be OR groups, `data:` included), or
+     - a THEN-free group with at most one payload end: AND / OR groups mixing one payload filter with non-payload
+       filters, negated filters and negated AND/OR groups (`(cdata:x tag:a -cdata:y) then ..`, `(tag:a or cdata:x) then ..`,
+       `-(cdata:x or cdata:y) then ..`, `port:80 then ..`).
+   _partial: of the judged fragment (wf_seq) this leaves out THEN whose left operand is an AND group with SEVERAL payload
+   filters (`(cdata:x cdata:y) then cdata:z`, with the right side restricted by rule 3) and groups in the middle of a
+   chain (`cdata:w then (cdata:x -cdata:y) then cdata:z`); covered by the correspondence runs only (notes/C03.md). *)
 Theorem c03_normalisation_preserves_meaning_partial :
   forall (v : valuation) (e : expr),
-    val_ok v -> ids_ok v -> tail_ok e = true -> expr_wf e ->
+    val_ok v -> ids_ok v -> class_ok e = true -> expr_wf e ->
     eval_set v (parse_conditions e) = sem v e.
-Proof. exact normalisation_preserves_meaning_then. Qed.
+Proof. exact normalisation_preserves_meaning_class. Qed.
 
 (* (2) "matches nothing" (Parse returns the empty set) only for expressions no stream can satisfy. *)
 Theorem c03_impossible_only_if_unsatisfiable_partial :
   forall e : expr,
-    tail_ok e = true -> expr_wf e -> parse_conditions e = [] ->
+    class_ok e = true -> expr_wf e -> parse_conditions e = [] ->
     forall v : valuation, val_ok v -> ids_ok v -> sem v e = false.
-Proof. exact impossible_only_if_unsatisfiable_then. Qed.
+Proof. exact impossible_only_if_unsatisfiable_class. Qed.
 
 (* the class of (1) and (2) contains every expression without THEN and lies inside the judged fragment *)
-Theorem c03_class_contains_then_free : forall e : expr, then_free e = true -> tail_ok e = true.
-Proof. exact then_free_tail_ok. Qed.
-Theorem c03_class_inside_judged_fragment : forall e : expr, tail_ok e = true -> wf_seq true e = true.
-Proof. exact tail_ok_judged. Qed.
+Theorem c03_class_contains_then_free : forall e : expr, then_free e = true -> class_ok e = true.
+Proof. intros e H. apply tail_ok_class. apply then_free_tail_ok. exact H. Qed.
+Theorem c03_class_inside_judged_fragment : forall e : expr, class_ok e = true -> wf_seq true e = true.
+Proof. exact class_ok_judged. Qed.
+
+(* groups: conjuncts and readings agree, the payload position they end at included *)
+Theorem c03_group_sound :
+  forall a : expr, nots_plain a = true -> (data_ends a <= 1)%nat -> expr_wf a ->
+    exists cs, norm a = Some cs /\ group_ok a cs.
+Proof. exact group_sound. Qed.
 
 (* Conditions.then: a sequence conjunct followed by ANY conjunct, from any position *)
 Theorem c03_conj_then_sound :
-  forall (v : valuation) (ds : list datac) (M : list N) (c2 : conj),
-    seq_inv ds M -> conj_wf c2 ->
-    eval_conj v (conj_then (chains ds) c2) =
-    eval_conj v (chains ds) && match pos_of v M with Some q => eval_conj (at_pos v q) c2 | None => false end.
-Proof. exact conj_then_sem. Qed.
+  forall (v : valuation) (c1 : conj) (M : list N) (c2 : conj),
+    (sel_data c1 = [] /\ M = []) \/ seq_inv (sel_data c1) M -> conj_wf c2 ->
+    eval_conj v (conj_then c1 c2) =
+    eval_conj v c1 && match pos_of v M with Some q => eval_conj (at_pos v q) c2 | None => false end.
+Proof. exact conj_then_sem2. Qed.
 
 (* (1') THEN on sequences of plain and negated payload filters of any length,
    `l1 then l2 then ... then ln` with li ::= [cs]data:x | -[cs]data:x : the normal form built by Conditions.then
@@ -113,9 +122,9 @@ Proof. exact negated_group_in_sequence_refuted. Qed.
 
 (* the hypotheses are satisfiable *)
 Example c03_hypotheses_satisfiable :
-  (val_ok ex_val /\ ids_ok ex_val) /\ (tail_ok ex_then = true /\ expr_wf ex_then).
-Proof. exact hypotheses_satisfiable_then. Qed.
-Example c03_example_value_then : eval_set ex_val (parse_conditions ex_then) = sem ex_val ex_then.
+  (val_ok ex_val /\ ids_ok ex_val) /\ (class_ok ex_group = true /\ expr_wf ex_group).
+Proof. exact hypotheses_satisfiable_class. Qed.
+Example c03_example_value_then : eval_set ex_val (parse_conditions ex_group) = sem ex_val ex_group.
 Proof. vm_compute. reflexivity. Qed.
 Example c03_example_value : eval_set ex_val (parse_conditions ex_tf) = sem ex_val ex_tf.
 Proof. vm_compute. reflexivity. Qed.
